@@ -117,6 +117,13 @@ CLAIMED = {
                   "return, also on failure) is model-checked; the real residual heap after a failed read is observed through malloc's accounting.",
              note="Trusts TLC, the supervisor/worker, mallinfo2 for residual heap (4 KiB slack). Formats without a generator yet are exercised with blobs only. Known findings listed per entry point.",
              ref="5 C18"),
+ "C14": dict(cat="model_checking", tech="TLC check of the selector polynomial / modular multiplication / alias resolution laws + TLC trace validation of real material and shader-package parses against the byte-level grammar",
+             text="MtrlShpk.tla is the byte-level grammar of both formats (conditional tables, dye bit fields, string heaps, variable-size shader and node records), "
+                  "the selector table with first-match resolution and the base-31 selector polynomial in 16-bit limb arithmetic, checked by TLC against "
+                  "hand-computed values. Generated materials (distinct halves in every colour-table component, every dye bit) and shader packages (aliases "
+                  "incl. one shadowed by a node) are parsed by the real library and every reported component is recomputed by TLC from the same bytes.",
+             note="Trusts TLC, gen/mtrlshpk.py; private fields are read through Debug formatting in the shim.",
+             ref="5 C14"),
 }
 HOOK_COMMITS = ["5eeb305"]
 REASON_PENDING = "check not built yet in this session (see DESIGN.md section 5); will be claimed when its trace specification exists"
